@@ -1,3 +1,551 @@
 package main
 
-func cmdCheck(args []string) int { return 3 }
+import (
+	"bufio"
+	"crypto/sha1"
+	"encoding/json"
+	"flag"
+	"fmt"
+	"os"
+	"os/exec"
+	"path/filepath"
+	"sort"
+	"strings"
+	"time"
+
+	"verif/internal/sym"
+)
+
+// hrun is one harness exploration with its bounds.
+type hrun struct {
+	Harness    string
+	Params     map[string]int
+	Solver     string   // default z3
+	AppendFork bool     // fork append growth
+	Covers     []string // labels that must be reached (vacuity witnesses) in addition to >=1 assertion
+	MaxSteps   int
+	NoNative   bool // sample paths are not replayed natively (harness uses executor-only facilities)
+}
+
+type propCheck struct {
+	ID          string
+	Quick       []hrun
+	Thorough    []hrun
+	Bounds      map[string]string // tier -> text
+	Outside     []string
+	Assumptions []string
+	Oracle      string
+}
+
+type knownFinding struct {
+	Status    string `json:"status"` // known | fixed
+	Property  string `json:"property"`
+	Label     string `json:"label"`     // assertion label (prefix match)
+	Predicate string `json:"predicate"` // verifKnown name that characterises the failing inputs
+	Commit    string `json:"commit,omitempty"`
+	What      string `json:"what"`
+}
+
+func loadKnown() ([]knownFinding, error) {
+	f, err := os.Open(filepath.Join(verifDir, "known_findings.jsonl"))
+	if err != nil {
+		if os.IsNotExist(err) {
+			return nil, nil
+		}
+		return nil, err
+	}
+	defer f.Close()
+	var out []knownFinding
+	sc := bufio.NewScanner(f)
+	sc.Buffer(nil, 1<<20)
+	for sc.Scan() {
+		line := strings.TrimSpace(sc.Text())
+		if line == "" || strings.HasPrefix(line, "#") {
+			continue
+		}
+		var k knownFinding
+		if err := json.Unmarshal([]byte(line), &k); err != nil {
+			return nil, fmt.Errorf("known_findings.jsonl: %v", err)
+		}
+		out = append(out, k)
+	}
+	return out, sc.Err()
+}
+
+type replayFile struct {
+	Property string          `json:"property"`
+	Harness  string          `json:"harness"`
+	Label    string          `json:"label"`
+	Expect   string          `json:"expect"`
+	Params   map[string]int  `json:"params"`
+	Values   []sym.NondetRec `json:"values"`
+	Detail   string          `json:"detail,omitempty"`
+	Observe  []string        `json:"observe,omitempty"`
+}
+
+func writeReplay(rf *replayFile) (string, error) {
+	b, _ := json.MarshalIndent(rf, "", " ")
+	h := sha1.Sum(b)
+	dir := filepath.Join(verifDir, "replays")
+	os.MkdirAll(dir, 0o755)
+	path := filepath.Join(dir, fmt.Sprintf("%s-%x.json", rf.Property, h[:6]))
+	return path, os.WriteFile(path, b, 0o644)
+}
+
+const replayTestSrc = `package sse
+
+import (
+	"fmt"
+	"os"
+	"strings"
+	"testing"
+)
+
+func TestVerifReplay(t *testing.T) {
+	hs := map[string]func(){
+%s
+	}
+	bad := false
+	for _, path := range strings.Split(os.Getenv("VERIF_REPLAY"), ":") {
+		if path == "" {
+			continue
+		}
+		if err := verifLoad(path); err != nil {
+			t.Fatalf("load %%s: %%v", path, err)
+		}
+		h, ok := hs[verifVec.Harness]
+		if !ok {
+			t.Fatalf("unknown harness %%s", verifVec.Harness)
+		}
+		func() {
+			defer func() {
+				if r := recover(); r != nil {
+					if _, ok := r.(verifSkip); ok {
+						return
+					}
+					verifFailures = append(verifFailures, fmt.Sprint("panic: ", r))
+				}
+			}()
+			h()
+		}()
+		switch {
+		case verifSkipped:
+			fmt.Printf("VERIF-REPLAY %%s SKIPPED (assumption false natively)\n", path)
+		case len(verifFailures) > 0:
+			fmt.Printf("VERIF-REPLAY %%s FAIL %%q\n", path, verifFailures)
+			bad = true
+		default:
+			fmt.Printf("VERIF-REPLAY %%s PASS\n", path)
+		}
+		for _, l := range verifLog {
+			fmt.Printf("  observe %%s\n", l)
+		}
+	}
+	if bad {
+		t.Fail()
+	}
+}
+`
+
+// nativeReplay runs the replay vectors against the real build with go test
+// -overlay. It returns, per path, "FAIL <labels>", "PASS" or "SKIPPED".
+func nativeReplay(paths []string, harnesses []string) (map[string]string, string, error) {
+	tmp, err := os.MkdirTemp("", "verif-replay-")
+	if err != nil {
+		return nil, "", err
+	}
+	defer os.RemoveAll(tmp)
+	ov, err := sym.HarnessOverlay(repoDir, harnessDir)
+	if err != nil {
+		return nil, "", err
+	}
+	var entries []string
+	seen := map[string]bool{}
+	for _, h := range harnesses {
+		if !seen[h] {
+			seen[h] = true
+			entries = append(entries, fmt.Sprintf("\t\t%q: %s,", h, h))
+		}
+	}
+	sort.Strings(entries)
+	testFile := filepath.Join(tmp, "replay_test.go")
+	if err := os.WriteFile(testFile, []byte(fmt.Sprintf(replayTestSrc, strings.Join(entries, "\n"))), 0o644); err != nil {
+		return nil, "", err
+	}
+	ov[filepath.Join(repoDir, "zz_verif_replay_test.go")] = testFile
+	ovJSON, _ := json.Marshal(map[string]interface{}{"Replace": ov})
+	ovPath := filepath.Join(tmp, "overlay.json")
+	os.WriteFile(ovPath, ovJSON, 0o644)
+	cmd := exec.Command("go", "test", "-vet=off", "-count=1", "-v", "-run", "^TestVerifReplay$", "-timeout", "300s", "-overlay", ovPath, ".")
+	cmd.Dir = repoDir
+	cmd.Env = append(os.Environ(), "GOFLAGS=-mod=mod", "GOPROXY=off", "GOSUMDB=off", "GOTOOLCHAIN=local", "VERIF_REPLAY="+strings.Join(paths, ":"))
+	out, _ := cmd.CombinedOutput()
+	res := map[string]string{}
+	for _, line := range strings.Split(string(out), "\n") {
+		if strings.HasPrefix(line, "VERIF-REPLAY ") {
+			f := strings.SplitN(line[len("VERIF-REPLAY "):], " ", 2)
+			if len(f) == 2 {
+				res[f[0]] = f[1]
+			}
+		}
+	}
+	return res, string(out), nil
+}
+
+type harnessEvidence struct {
+	Harness        string                   `json:"harness"`
+	Params         map[string]int           `json:"params"`
+	Solver         string                   `json:"solver"`
+	Paths          int                      `json:"feasible_paths"`
+	Pruned         int                      `json:"pruned_paths"`
+	Decisions      int                      `json:"decisions"`
+	MaxDecisions   int                      `json:"max_decisions_per_path"`
+	Steps          int64                    `json:"ssa_instructions_executed"`
+	Queries        int                      `json:"smt_queries"`
+	SolverS        float64                  `json:"solver_time_s"`
+	WallS          float64                  `json:"wall_s"`
+	AssertsReached int                      `json:"assertions_reached"`
+	AssertsSMT     int                      `json:"assertions_discharged_by_query"`
+	AssertsFacts   int                      `json:"assertions_implied_by_path_condition"`
+	FastResolved   int                      `json:"branches_implied_by_path_condition"`
+	AssertLabels   map[string]int           `json:"assert_labels"`
+	Covers         map[string]int           `json:"covers"`
+	Unknowns       int                      `json:"solver_unknowns"`
+	Violations     int                      `json:"violations"`
+	Known          int                      `json:"known_finding_instances"`
+	Samples        []map[string]interface{} `json:"-"`
+}
+
+func cmdCheck(args []string) int {
+	fs := flag.NewFlagSet("check", flag.ExitOnError)
+	tier := fs.String("tier", envOr("VERIF_TIER", "quick"), "quick | thorough")
+	workers := fs.Int("workers", 16, "parallel workers")
+	replay := fs.String("replay", "", "replay a counterexample file natively")
+	only := fs.String("only", "", "run only harnesses whose name contains this")
+	keep := fs.Bool("no-evidence", false, "do not write the evidence file")
+	if len(args) < 1 {
+		fmt.Fprintln(os.Stderr, "usage: gosym check <property> [--tier quick|thorough] [--replay file]")
+		return 2
+	}
+	id := args[0]
+	fs.Parse(args[1:])
+	if harnessDir == "" {
+		harnessDir = verifDir + "/harness"
+	}
+	pc, ok := checks[id]
+	if !ok {
+		fmt.Fprintf(os.Stderr, "no check registered for %s\n", id)
+		return 2
+	}
+	if *replay != "" {
+		return doReplay(id, *replay)
+	}
+	seed := 0
+	fmt.Sscan(os.Getenv("VERIF_SEED"), &seed)
+	runs := pc.Quick
+	if *tier == "thorough" {
+		runs = pc.Thorough
+	}
+	t0 := time.Now()
+	known, err := loadKnown()
+	if err != nil {
+		fmt.Fprintln(os.Stderr, err)
+		return 3
+	}
+	knownFor := map[string][]string{}
+	prog, err := loadProgram(nil)
+	if err != nil {
+		fmt.Fprintln(os.Stderr, "load:", err)
+		return 3
+	}
+	loadS := time.Since(t0).Seconds()
+
+	var hev []harnessEvidence
+	var allViol []*sym.Violation
+	var violParams []map[string]int
+	var internal []string
+	var vacuous []string
+	funcs := map[string]bool{}
+	var samples []interface{}
+	var sampleReplays []*replayFile
+	totalQ, totalPaths, totalDec := 0, 0, 0
+	totalSolver := 0.0
+	for _, r := range runs {
+		if *only != "" && !strings.Contains(r.Harness, *only) {
+			continue
+		}
+		e, err := sym.NewExplorer(prog, r.Harness)
+		if err != nil {
+			fmt.Fprintln(os.Stderr, err)
+			return 3
+		}
+		e.Workers = *workers
+		if r.Solver != "" {
+			e.SolverK = r.Solver
+		}
+		e.Params = r.Params
+		e.Opt.AppendFork = r.AppendFork
+		if r.MaxSteps > 0 {
+			e.Opt.MaxSteps = r.MaxSteps
+		}
+		// known-finding predicates apply per assertion label prefix; resolved lazily below
+		e.KnownFor = knownFor
+		e.KnownPrefix = map[string][]string{}
+		for _, k := range known {
+			if k.Status == "known" && k.Property == id {
+				e.KnownPrefix[k.Label] = append(e.KnownPrefix[k.Label], k.Predicate)
+			}
+		}
+		t1 := time.Now()
+		e.Run()
+		st := e.Stats
+		he := harnessEvidence{Harness: r.Harness, Params: r.Params, Solver: e.SolverK, Paths: st.Paths, Pruned: st.Pruned, Decisions: st.Decisions,
+			MaxDecisions: st.MaxPathDecisions, Steps: st.Steps, Queries: st.Queries, SolverS: st.SolverTime.Seconds(), WallS: time.Since(t1).Seconds(),
+			AssertsReached: st.AssertsReached, AssertsSMT: st.AssertsDischargedBySMT, AssertsFacts: st.AssertsConcrete, FastResolved: st.FastResolved,
+			AssertLabels: st.AssertLabels, Covers: st.Covers, Unknowns: st.Unknowns}
+		for _, v := range e.Violations {
+			if v.Known != "" {
+				he.Known++
+			} else {
+				he.Violations++
+			}
+			allViol = append(allViol, v)
+			violParams = append(violParams, r.Params)
+		}
+		for f := range st.Funcs {
+			funcs[f] = true
+		}
+		for _, m := range e.Internal {
+			internal = append(internal, r.Harness+": "+m)
+		}
+		if st.AssertsReached == 0 {
+			vacuous = append(vacuous, r.Harness+": no assertion reached on any feasible path")
+		}
+		for _, c := range r.Covers {
+			if st.Covers[c] == 0 {
+				vacuous = append(vacuous, r.Harness+": cover label "+c+" never reached")
+			}
+		}
+		for i, s := range st.Samples {
+			s["harness"] = r.Harness
+			samples = append(samples, s)
+			if !r.NoNative && i < 2 {
+				if vals, ok := s["values"].([]sym.NondetRec); ok {
+					sampleReplays = append(sampleReplays, &replayFile{Property: id, Harness: r.Harness, Label: "sample", Expect: "pass", Params: r.Params, Values: vals})
+				}
+			}
+			delete(s, "values")
+		}
+		hev = append(hev, he)
+		totalQ += st.Queries
+		totalPaths += st.Paths
+		totalDec += st.Decisions
+		totalSolver += st.SolverTime.Seconds()
+		fmt.Printf("  %-28s params=%v paths=%d pruned=%d asserts=%d queries=%d solver=%.1fs wall=%.1fs violations=%d known=%d\n", r.Harness, r.Params, st.Paths, st.Pruned, st.AssertsReached, st.Queries, st.SolverTime.Seconds(), he.WallS, he.Violations, he.Known)
+	}
+
+	// ---- replay counterexamples and sample paths against the real build ----
+	exit := 0
+	var violLines, knownLines []string
+	confirmed, unconfirmed := 0, 0
+	var rpaths []string
+	var rfiles []*replayFile
+	var harnessNames []string
+	for i, v := range allViol {
+		rf := &replayFile{Property: id, Harness: v.Harness, Label: v.Label, Expect: "fail", Params: violParams[i], Values: v.Values, Detail: v.Detail, Observe: v.Observe}
+		path, err := writeReplay(rf)
+		if err != nil {
+			fmt.Fprintln(os.Stderr, err)
+			return 3
+		}
+		rpaths = append(rpaths, path)
+		rfiles = append(rfiles, rf)
+		harnessNames = append(harnessNames, v.Harness)
+	}
+	tmpSamples, _ := os.MkdirTemp("", "verif-samples-")
+	defer os.RemoveAll(tmpSamples)
+	var spaths []string
+	for i, rf := range sampleReplays {
+		b, _ := json.Marshal(rf)
+		pth := filepath.Join(tmpSamples, fmt.Sprintf("s%d.json", i))
+		os.WriteFile(pth, b, 0o644)
+		spaths = append(spaths, pth)
+		harnessNames = append(harnessNames, rf.Harness)
+	}
+	tracesValidated := 0
+	if len(rpaths)+len(spaths) > 0 {
+		res, out, err := nativeReplay(append(append([]string{}, rpaths...), spaths...), harnessNames)
+		if err != nil {
+			fmt.Fprintln(os.Stderr, "replay:", err)
+			return 3
+		}
+		if len(res) == 0 {
+			fmt.Fprintln(os.Stderr, "native replay produced no result:\n"+out)
+			return 3
+		}
+		for i, pth := range rpaths {
+			v := allViol[i]
+			r := res[pth]
+			if strings.HasPrefix(r, "FAIL") {
+				confirmed++
+				if v.Known != "" {
+					continue
+				}
+				violLines = append(violLines, fmt.Sprintf("VIOLATION property=%s replay=%s", id, pth))
+				fmt.Printf("  counterexample %s [%s] %s -> native %s\n", v.Harness, v.Label, showValues(v.Values), r)
+			} else {
+				unconfirmed++
+				internal = append(internal, fmt.Sprintf("counterexample for %s [%s] did not reproduce natively (%s): encoder mismatch, replay=%s", v.Harness, v.Label, r, pth))
+			}
+		}
+		for _, pth := range spaths {
+			r := res[pth]
+			switch {
+			case strings.HasPrefix(r, "PASS"):
+				tracesValidated++
+			case strings.HasPrefix(r, "SKIPPED"):
+			default:
+				b, _ := os.ReadFile(pth)
+				internal = append(internal, fmt.Sprintf("sample path that passes symbolically fails natively (%s): encoder mismatch: %s", r, string(b)))
+			}
+		}
+	}
+	// known findings: one line per listed finding that was actually hit
+	hit := map[string]bool{}
+	for _, v := range allViol {
+		if v.Known != "" {
+			for _, n := range strings.Split(v.Known, ",") {
+				hit[n] = true
+			}
+		}
+	}
+	for _, k := range known {
+		if k.Status == "known" && k.Property == id && hit[k.Predicate] {
+			knownLines = append(knownLines, fmt.Sprintf("KNOWN-FINDING: property=%s %s", id, k.What))
+		}
+	}
+
+	for _, l := range knownLines {
+		fmt.Println(l)
+	}
+	for _, l := range violLines {
+		fmt.Println(l)
+	}
+	for _, m := range internal {
+		fmt.Println("INCONCLUSIVE:", m)
+	}
+	for _, m := range vacuous {
+		fmt.Println("VACUOUS:", m)
+	}
+	switch {
+	case len(violLines) > 0:
+		exit = 1
+	case len(internal) > 0:
+		exit = 3
+	case len(vacuous) > 0:
+		exit = 2
+	}
+
+	// ---- evidence ----
+	var fl []string
+	for f := range funcs {
+		if !strings.Contains(f, "vh") || true {
+			fl = append(fl, f)
+		}
+	}
+	sort.Strings(fl)
+	var repoFuncs []string
+	for _, f := range fl {
+		if strings.Contains(f, "tmaxmax/go-sse") && !strings.Contains(f, ".vh") && !strings.Contains(f, ".verif") {
+			repoFuncs = append(repoFuncs, f)
+		}
+	}
+	if len(samples) == 0 {
+		samples = append(samples, "no feasible path completed")
+	}
+	cov := map[string]interface{}{
+		"states":                        max(totalPaths, 0),
+		"transitions":                   totalDec,
+		"traces_validated_against_impl": tracesValidated,
+		"samples":                       samples,
+		"evaluations":                   totalQ,
+		"distinct_nontrivial":           totalPaths,
+		"rule":                          "each explored case is one feasible path of the harness through the real SSA (an equivalence class of inputs: every symbolic byte/int ranges over all values consistent with the branch decisions); evaluations = SMT queries discharged; distinct_nontrivial = distinct feasible complete paths (each ends after passing at least one assertion site or being reported); states = feasible complete paths, transitions = branch decisions taken on them; traces_validated_against_impl = sample paths whose concrete model was re-run natively against the real build with go test -overlay and passed there too",
+		"exhaustive":                    len(internal) == 0 && len(vacuous) == 0,
+		"technique":                     "bounded symbolic execution of go/ssa with SMT (z3) path feasibility and assertion queries",
+		"functions_encoded_repo":        repoFuncs,
+		"functions_encoded_total":       len(fl),
+		"bounds":                        pc.Bounds[*tier],
+		"outside_the_claim":             pc.Outside,
+		"oracle":                        pc.Oracle,
+		"harness_runs":                  hev,
+		"stubs":                         sym.StubList,
+		"package_inits_executed":        prog.InitRun,
+		"package_inits_skipped":         prog.InitSkipped,
+		"package_inits_partial":         prog.InitPartial,
+		"solver_time_s":                 totalSolver,
+		"load_and_ssa_build_s":          loadS,
+		"counterexamples_replayed":      confirmed,
+		"counterexamples_not_reproduced": unconfirmed,
+		"known_findings_hit":            knownLines,
+		"inconclusive":                  internal,
+		"vacuity":                       vacuous,
+		"solver":                        "z3 4.8.12 (/usr/bin/z3 -in), one incremental process per worker",
+	}
+	ev := map[string]interface{}{
+		"property_id": id,
+		"tier":        *tier,
+		"seed":        seed,
+		"level":       "model_checking",
+		"coverage":    cov,
+		"assumptions": append(append([]string{}, pc.Assumptions...), "SSA built by golang.org/x/tools v0.29.0 from /repo's working tree at check time; stubs listed in coverage.stubs; Go run-time panics modelled for nil dereference, index/slice bounds, division by zero, closed-channel operations, failed type assertions"),
+		"wall_s":      time.Since(t0).Seconds(),
+		"violations":  len(violLines),
+	}
+	if !*keep {
+		os.MkdirAll(filepath.Join(verifDir, "evidence"), 0o755)
+		b, _ := json.MarshalIndent(ev, "", " ")
+		if err := os.WriteFile(filepath.Join(verifDir, "evidence", id+".json"), b, 0o644); err != nil {
+			fmt.Fprintln(os.Stderr, err)
+			return 3
+		}
+	}
+	fmt.Printf("%s %s: %d harness runs, %d feasible paths, %d SMT queries, solver %.1fs, wall %.1fs, exit %d\n", id, *tier, len(hev), totalPaths, totalQ, totalSolver, time.Since(t0).Seconds(), exit)
+	return exit
+}
+
+func showValues(vals []sym.NondetRec) string {
+	var parts []string
+	for _, r := range vals {
+		parts = append(parts, fmt.Sprintf("%s#%d=%v", r.Tag, r.Ord, r.V))
+	}
+	s := strings.Join(parts, " ")
+	if len(s) > 400 {
+		s = s[:400] + "..."
+	}
+	return s
+}
+
+func doReplay(id, path string) int {
+	b, err := os.ReadFile(path)
+	if err != nil {
+		fmt.Fprintln(os.Stderr, err)
+		return 3
+	}
+	var rf replayFile
+	if err := json.Unmarshal(b, &rf); err != nil {
+		fmt.Fprintln(os.Stderr, err)
+		return 3
+	}
+	res, out, err := nativeReplay([]string{path}, []string{rf.Harness})
+	if err != nil {
+		fmt.Fprintln(os.Stderr, err)
+		return 3
+	}
+	fmt.Print(out)
+	if strings.HasPrefix(res[path], "FAIL") {
+		fmt.Printf("VIOLATION property=%s replay=%s\n", id, path)
+		return 1
+	}
+	return 0
+}
